@@ -62,7 +62,24 @@ func Leaked(before GSnap, settle time.Duration) []Goroutine {
 			return left
 		}
 		if now.After(deadline) {
-			return left
+			if allBlocked {
+				return left
+			}
+			// some survivors are still running or runnable (a loaded machine):
+			// they are making progress, give them up to 15 s in total, then only
+			// report the ones that are blocked
+			if now.Sub(start) < 15*time.Second {
+				time.Sleep(20 * time.Millisecond)
+				continue
+			}
+			var blocked []Goroutine
+			for _, g := range left {
+				switch strings.SplitN(g.State, ",", 2)[0] {
+				case "chan send", "chan receive", "select", "semacquire", "sync.Mutex.Lock", "sync.RWMutex.Lock", "sync.RWMutex.RLock", "sync.WaitGroup.Wait", "sync.Cond.Wait":
+					blocked = append(blocked, g)
+				}
+			}
+			return blocked
 		}
 		time.Sleep(wait)
 		if wait < 10*time.Millisecond {
